@@ -152,9 +152,20 @@ func ParentMain(propID, tier string, replayFile string) int {
 		mu.Unlock()
 	}
 
+	altBin := ""
+	if p.AltBinLastReplica != "" && replicas > 1 {
+		cand := filepath.Join(binDir, p.AltBinLastReplica)
+		if st, err := os.Stat(cand); err == nil && !st.IsDir() {
+			altBin = cand
+		}
+	}
 	runChild := func(a ChildArgs, timeout time.Duration, hangCPU int) (exit int, stderr string, timedOut bool) {
 		b, _ := json.Marshal(a)
-		cmd := exec.Command(childBin, "child", string(b))
+		bin := childBin
+		if altBin != "" && a.Replica == replicas-1 {
+			bin = altBin
+		}
+		cmd := exec.Command(bin, "child", string(b))
 		cmd.Env = append(os.Environ(), extraEnv...)
 		if hangCPU > 0 {
 			cmd.Env = append(cmd.Env, fmt.Sprintf("VMON_HANG_CPU=%d", hangCPU))
@@ -327,6 +338,13 @@ func ParentMain(propID, tier string, replayFile string) int {
 	}
 	wg.Wait()
 
+	if p.AltBinLastReplica != "" {
+		if altBin != "" {
+			total.Notes["second_toolchain"] = "replica " + strconv.Itoa(replicas-1) + " ran " + p.AltBinLastReplica + " (" + altVersion(altBin) + ")"
+		} else {
+			total.Notes["second_toolchain"] = "skipped: " + p.AltBinLastReplica + " was not built for this tier"
+		}
+	}
 	pc := &ParentCtx{Prop: p, Tier: tier, Seed: seed, RunDir: runDir, VerifDir: verifDir, RepoDir: repoDir, BinDir: binDir, S: total, Replica: perReplica}
 	if p.Post != nil && len(inconclusive) == 0 {
 		func() {
@@ -532,4 +550,16 @@ func hangWhere(stderr string) string {
 		}
 	}
 	return ""
+}
+
+func altVersion(bin string) string {
+	out, err := exec.Command("go", "version", bin).Output()
+	if err != nil {
+		return "unknown toolchain"
+	}
+	f := strings.Fields(string(out))
+	if len(f) >= 2 {
+		return f[len(f)-1]
+	}
+	return strings.TrimSpace(string(out))
 }
